@@ -136,6 +136,11 @@ def templates(client, state):
         add("interleave-data", [PE], wire.data(1, b"x"))
         add("interleave-cont-other-stream", [PE], wire.continuation(3, b""))
         add("interleave-settings", [PE], wire.settings([]))
+        # interrupting frames that are malformed themselves: two violations at once, either code - but always the same one
+        # whatever the chunking (C21 replays these split at every offset)
+        add("interleave-malformed-ping", [PE, FSE], wire.raw(wire.PING, 0, 0, b"\0" * 7))
+        add("interleave-short-rst", [PE, FSE], wire.raw(wire.RST_STREAM, 0, 1, b"\0" * 3))
+        add("interleave-oversize-data", [PE, FSE], wire.raw(wire.DATA, 0, 1, b"\0" * 16385))
         add("too-many-continuations", [PE, EYC], *[wire.continuation(1, b"", eh=False) for _ in range(65)])
         return T
     anysid = data_sid or (1 if hi or client else None)
